@@ -336,7 +336,7 @@ theorem runFromO_transparent (cfg : Cfg) (obs : Option StageObs) :
     without it. -/
 theorem runO_transparent (cfg : Cfg) (obs : Option StageObs) (stages : List (Stage σ)) (x : σ) :
     (resultO cfg obs stages x).1 = result cfg stages x := by
-  have h := runFromO_transparent cfg obs stages 0 ⟨x, 1, none⟩
+  have h := runFromO_transparent cfg obs stages 0 ⟨x, clamp cfg 1, none⟩
   unfold resultO result run
   simp only [h]
 
@@ -400,23 +400,125 @@ theorem runFromO_seen (cfg : Cfg) (obs : Option StageObs) :
 /-- what every run establishes about the state after the loop: if as many stage results are COMPLETED as there are stages,
     nothing was blocked (a blocked / failed stage never has a COMPLETED result and every stage has at most one result) -/
 theorem runFromO_consistent (cfg : Cfg) (obs : Option StageObs) (stages : List (Stage σ)) (x : σ) :
-    completedCount (runFromO cfg obs 0 stages ⟨x, 1, none⟩).1.results = stages.length →
-      (runFromO cfg obs 0 stages ⟨x, 1, none⟩).1.acc.blockedAt = none := by
+    completedCount (runFromO cfg obs 0 stages ⟨x, clamp cfg 1, none⟩).1.results = stages.length →
+      (runFromO cfg obs 0 stages ⟨x, clamp cfg 1, none⟩).1.acc.blockedAt = none := by
   rw [runFromO_transparent]
   intro hc
-  have hshape := runFrom_shape cfg stages 0 ⟨x, 1, none⟩
-  have hall := runFrom_allCompleted cfg stages 0 ⟨x, 1, none⟩
+  have hshape := runFrom_shape cfg stages 0 ⟨x, clamp cfg 1, none⟩
+  have hall := runFrom_allCompleted cfg stages 0 ⟨x, clamp cfg 1, none⟩
   unfold completedCount at hc
   have hle := List.length_filter_le (fun r : StageRes σ => decide (r.status = .completed))
-    (runFrom cfg 0 stages ⟨x, 1, none⟩).results
+    (runFrom cfg 0 stages ⟨x, clamp cfg 1, none⟩).results
   have hfl : (List.filter (fun r : StageRes σ => decide (r.status = .completed))
-      (runFrom cfg 0 stages ⟨x, 1, none⟩).results).length
-      = (runFrom cfg 0 stages ⟨x, 1, none⟩).results.length := by omega
-  have hcomp : ∀ r ∈ (runFrom cfg 0 stages ⟨x, 1, none⟩).results, r.status = .completed := by
+      (runFrom cfg 0 stages ⟨x, clamp cfg 1, none⟩).results).length
+      = (runFrom cfg 0 stages ⟨x, clamp cfg 1, none⟩).results.length := by omega
+  have hcomp : ∀ r ∈ (runFrom cfg 0 stages ⟨x, clamp cfg 1, none⟩).results, r.status = .completed := by
     intro r hr
     have := (List.length_filter_eq_length_iff.mp hfl) r hr
     simpa using this
   exact (hall hcomp).1
+
+/-! ### a closed gate: no processor (negative form of the gate clause) -/
+
+theorem procEvs_no_cp (i : Nat) (x : σ) (o : PO σ) (j : Nat) (sig : σ) (r : Out Bool) : (Ev.cp j sig r) ∉ procEvs i x o := by
+  match o with
+  | .ok _ => simp [procEvs]
+  | .recovered _ => simp [procEvs]
+  | .failed true => simp [procEvs]
+  | .failed false => simp [procEvs]
+
+/-- a stage whose gate did not answer `true` calls no processor -/
+theorem stageStep_closed (cfg : Cfg) (i : Nat) (s : Stage σ) (a : Acc σ) (j : Nat) (sig : σ) (r : Out Bool)
+    (hcp : (Ev.cp j sig r) ∈ (stageStep cfg i s a).evs) (hr : r ≠ .ok true) :
+    ∀ k sig', (Ev.proc k sig') ∉ (stageStep cfg i s a).evs := by
+  intro k sig'
+  cases hc : s.checkpoint with
+  | none =>
+    simp only [stageStep, hc, process_evs, List.nil_append] at hcp
+    exact absurd hcp (procEvs_no_cp _ _ _ _ _ _)
+  | some cp =>
+    cases hcr : cp a.cur with
+    | raise =>
+      simp only [stageStep, hc, hcr]
+      split <;> simp
+    | ok b =>
+      cases b with
+      | false => simp [stageStep, hc, hcr]
+      | true =>
+        simp only [stageStep, hc, hcr, process_evs, List.cons_append, List.nil_append, List.mem_cons] at hcp
+        rcases hcp with h | h
+        · cases h; exact absurd rfl hr
+        · exact absurd h (procEvs_no_cp _ _ _ _ _ _)
+
+theorem runFrom_closed (cfg : Cfg) :
+    ∀ (rest : List (Stage σ)) (i : Nat) (a : Acc σ) (j : Nat) (sig : σ) (r : Out Bool),
+      (Ev.cp j sig r) ∈ (runFrom cfg i rest a).log → r ≠ .ok true →
+      ∀ sig', (Ev.proc j sig') ∉ (runFrom cfg i rest a).log := by
+  intro rest
+  induction rest with
+  | nil => intro i a j sig r h; simp [runFrom] at h
+  | cons s rest ih =>
+    intro i a j sig r hcp hr sig' hp
+    have hev := stageStep_evs_idx cfg i s a
+    simp only [runFrom] at hcp hp
+    split at hcp
+    · rename_i hs
+      simp only [hs, if_true] at hp
+      exact stageStep_closed cfg i s a j sig r hcp hr j sig' hp
+    · rename_i hs
+      simp only [hs] at hp
+      have hge := (runFrom_idx cfg rest (i + 1) (stageStep cfg i s a).acc).1
+      rcases List.mem_append.mp hcp with hcp | hcp
+      · have hji : j = i := by have := hev _ hcp; simpa [Ev.idx] using this
+        rcases List.mem_append.mp hp with hp | hp
+        · exact stageStep_closed cfg i s a j sig r hcp hr j sig' hp
+        · have := hge _ hp; simp [Ev.idx] at this; omega
+      · have hji : i + 1 ≤ j := by have := hge _ hcp; simpa [Ev.idx] using this
+        rcases List.mem_append.mp hp with hp | hp
+        · have := hev _ hp; simp [Ev.idx] at this; omega
+        · exact ih (i + 1) _ j sig r hcp hr sig' hp
+
+/-! ### running clamp vs. clamp of the plain product -/
+
+/-- the plain (unclamped) product of the completed stages' factors -/
+def plainProduct (a : Rat) : List (StageRes σ) → Rat
+  | [] => a
+  | r :: rs => plainProduct (if r.status = .completed then a * r.factor else a) rs
+
+theorem clamp_clamp_mul (cfg : Cfg) (h0 : 0 ≤ cfg.maxAmp) (a f : Rat) (hf : 1 ≤ f) :
+    clamp cfg (clamp cfg a * f) = clamp cfg (a * f) := by
+  by_cases ha : a ≤ cfg.maxAmp
+  · rw [clamp_id cfg a ha]
+  · have ha' : cfg.maxAmp < a := Rat.not_le.mp ha
+    have h1 : clamp cfg a = cfg.maxAmp := by unfold clamp; simp [ha']
+    rw [h1]
+    have hm : cfg.maxAmp ≤ cfg.maxAmp * f := by
+      have := Rat.mul_le_mul_of_nonneg_left hf h0
+      simpa [Rat.mul_one] using this
+    have ha0 : 0 ≤ a := Rat.le_trans h0 (Rat.le_of_lt ha')
+    have hm2 : a ≤ a * f := by
+      have := Rat.mul_le_mul_of_nonneg_left hf ha0
+      simpa [Rat.mul_one] using this
+    have h2 : cfg.maxAmp < a * f := by grind
+    unfold clamp
+    simp only [gt_iff_lt, h2, if_true]
+    split <;> grind
+
+theorem clampedProduct_eq_clamp_plain (cfg : Cfg) (h0 : 0 ≤ cfg.maxAmp) :
+    ∀ (rs : List (StageRes σ)) (a : Rat), (∀ r ∈ rs, r.status = .completed → 1 ≤ r.factor) →
+      clampedProduct cfg (clamp cfg a) rs = clamp cfg (plainProduct a rs) := by
+  intro rs
+  induction rs with
+  | nil => intro a _; rfl
+  | cons r rs ih =>
+    intro a h
+    have ih' := fun a => ih a (fun r' hr' => h r' (List.mem_cons_of_mem _ hr'))
+    simp only [clampedProduct, plainProduct]
+    split
+    · rename_i hc
+      rw [clamp_clamp_mul cfg h0 a r.factor (h r (List.mem_cons_self ..) hc)]
+      exact ih' _
+    · exact ih' _
 
 /-! ### the stub behaviour alphabet used by the evaluated table (Gen/CascadeTable) -/
 
